@@ -67,7 +67,7 @@ TObs ==
   /\ LET x == [h |-> Ev.h, key |-> Ev.key, cls |-> Ev.cls, st |-> Ev.st, d |-> Ev.d, root |-> 0,
                armed |-> hs[Ev.h + 1].armed, exempt |-> hs[Ev.h + 1].exempt]
          o2 == o \cup {x}
-     IN /\ TwinsAgree(o2) /\ RootsOk(o2)
+     IN /\ Extends(o, x) /\ RootsOk({x})           \* = TwinsAgree(o2) /\ RootsOk(o2), given they held for o
         /\ Ev.h > 0 => Ev.key \in KeysOf(o, 0)      \* restored values are asked what the original was asked
         /\ o' = o2
   /\ Adv /\ UNCHANGED <<hs, eqs, refused>>
